@@ -237,6 +237,11 @@ theorem b58check_accept_iff (H : Addr.Hashes) (hs : Bytes) (hlen : 4 ≤ hs.leng
 example : 4 ≤ ([49, 49, 49, 49] : Bytes).length ∧ ¬ Addr.segwitPrefix [49, 49, 49, 49] := by
   refine ⟨by simp, Addr.not_prefix_of_first _ _ (by decide)⟩
 
+/-- … and an ACCEPTED string exists (so the iff is not an iff between two false statements): with the toy hash
+    "32 zero bytes", the Base58 spelling of 00 ‖ 20×01 ‖ 00000000 is accepted as a version-0 address. -/
+example : (Addr.fromString { sha2sum := fun _ => List.replicate 32 0, hash160 := fun _ => List.replicate 20 0 }
+    (Base58.encode (0 :: (List.replicate 20 1 ++ [0, 0, 0, 0])))).toOption.isSome = true := by decide +kernel
+
 /-- segwit strings at the address level: for hrp "bc"/"tb", `String()` then `NewAddrFromString` returns
     exactly the same address (hrp, version, program) -/
 theorem addr_segwit_string_roundtrip (H : Addr.Hashes) (hrp prog s : Bytes) (v : Nat)
@@ -412,6 +417,19 @@ theorem bech32_detects_le2_substitutions (s s' hrp d d' : Bytes) (m : Bool)
 example : Bech32.decode [97, 49, 50, 117, 101, 108, 53, 108] = some ([97], [], false) ∧
     Bech32.hamming [97, 49, 50, 117, 101, 108, 53, 108] [97, 49, 50, 117, 101, 108, 53, 108] ≤ 2 := by decide +kernel
 
+/-- a NON-trivial instance, and what the theorem excludes: "A12UEL5L" and "a12uel5l" are both accepted with the same
+    (hrp, data, variant) at distance 0 after lowering — two different strings the theorem calls equal up to case —,
+    while the 1-substitution neighbours "a12uel5m" / "a12uel4l" / "a12ue75l" (last, middle and first checksum
+    character changed) are NOT accepted at all. -/
+example : Bech32.decode [65, 49, 50, 85, 69, 76, 53, 76] = some ([97], [], false) ∧
+    ([65, 49, 50, 85, 69, 76, 53, 76] : Bytes) ≠ [97, 49, 50, 117, 101, 108, 53, 108] ∧
+    Bech32.hamming (([65, 49, 50, 85, 69, 76, 53, 76] : Bytes).map Addr.asciiLower)
+      (([97, 49, 50, 117, 101, 108, 53, 108] : Bytes).map Addr.asciiLower) = 0 ∧
+    Bech32.hamming [97, 49, 50, 117, 101, 108, 53, 109] [97, 49, 50, 117, 101, 108, 53, 108] = 1 ∧
+    Bech32.decode [97, 49, 50, 117, 101, 108, 53, 109] = none ∧
+    Bech32.decode [97, 49, 50, 117, 101, 108, 52, 108] = none ∧
+    Bech32.decode [97, 49, 50, 117, 101, 55, 53, 108] = none := by decide +kernel
+
 /-- the same at the segwit level: two strings accepted by `SegwitDecode` for the same hrp with the same witness
     version, of equal length, at case-insensitive distance ≤ 2, are equal up to case — so a 1- or 2-character
     typo in the program or checksum part of an address is never accepted (as any program). -/
@@ -426,6 +444,20 @@ theorem segwit_detects_le2_substitutions (hrp s s' p p' : Bytes) (v : Nat)
     cases m <;> cases m' <;> simp_all
   subst this
   exact Bech32.detect_le2 s s' hrp d d' m hdec hdec' hlen hd
+
+/-- non-vacuity of `segwit_detects_le2_substitutions` / `_le3_`, non-trivially: the BIP173 address
+    bc1qw508d6qejxtdg4y5r3zarvary0c5xw7kv8f3t4 and its upper-case spelling are two DIFFERENT strings, both accepted
+    for hrp "bc" as (version 0, the same 20-byte program), of equal length and at distance 0 after lowering (the
+    hypotheses hold, the conclusion is not s = s'); its 1-substitution neighbours …f3t5 and …f3tq (last checksum
+    character) are refused. -/
+example :
+    (segwitDecode [98, 99] [98, 99, 49, 113, 119, 53, 48, 56, 100, 54, 113, 101, 106, 120, 116, 100, 103, 52, 121, 53, 114, 51, 122, 97, 114, 118, 97, 114, 121, 48, 99, 53, 120, 119, 55, 107, 118, 56, 102, 51, 116, 52]).toOption = some (0, [117, 30, 118, 232, 25, 145, 150, 212, 84, 148, 28, 69, 209, 179, 163, 35, 241, 67, 59, 214]) ∧
+    (segwitDecode [98, 99] [66, 67, 49, 81, 87, 53, 48, 56, 68, 54, 81, 69, 74, 88, 84, 68, 71, 52, 89, 53, 82, 51, 90, 65, 82, 86, 65, 82, 89, 48, 67, 53, 88, 87, 55, 75, 86, 56, 70, 51, 84, 52]).toOption = some (0, [117, 30, 118, 232, 25, 145, 150, 212, 84, 148, 28, 69, 209, 179, 163, 35, 241, 67, 59, 214]) ∧
+    ([98, 99, 49, 113, 119, 53, 48, 56, 100, 54, 113, 101, 106, 120, 116, 100, 103, 52, 121, 53, 114, 51, 122, 97, 114, 118, 97, 114, 121, 48, 99, 53, 120, 119, 55, 107, 118, 56, 102, 51, 116, 52] : Bytes) ≠ [66, 67, 49, 81, 87, 53, 48, 56, 68, 54, 81, 69, 74, 88, 84, 68, 71, 52, 89, 53, 82, 51, 90, 65, 82, 86, 65, 82, 89, 48, 67, 53, 88, 87, 55, 75, 86, 56, 70, 51, 84, 52] ∧
+    Bech32.hamming (([98, 99, 49, 113, 119, 53, 48, 56, 100, 54, 113, 101, 106, 120, 116, 100, 103, 52, 121, 53, 114, 51, 122, 97, 114, 118, 97, 114, 121, 48, 99, 53, 120, 119, 55, 107, 118, 56, 102, 51, 116, 52] : Bytes).map Addr.asciiLower) (([66, 67, 49, 81, 87, 53, 48, 56, 68, 54, 81, 69, 74, 88, 84, 68, 71, 52, 89, 53, 82, 51, 90, 65, 82, 86, 65, 82, 89, 48, 67, 53, 88, 87, 55, 75, 86, 56, 70, 51, 84, 52] : Bytes).map Addr.asciiLower) = 0 ∧
+    Bech32.hamming ([98, 99, 49, 113, 119, 53, 48, 56, 100, 54, 113, 101, 106, 120, 116, 100, 103, 52, 121, 53, 114, 51, 122, 97, 114, 118, 97, 114, 121, 48, 99, 53, 120, 119, 55, 107, 118, 56, 102, 51, 116, 53] : Bytes) [98, 99, 49, 113, 119, 53, 48, 56, 100, 54, 113, 101, 106, 120, 116, 100, 103, 52, 121, 53, 114, 51, 122, 97, 114, 118, 97, 114, 121, 48, 99, 53, 120, 119, 55, 107, 118, 56, 102, 51, 116, 52] = 1 ∧
+    (segwitDecode [98, 99] [98, 99, 49, 113, 119, 53, 48, 56, 100, 54, 113, 101, 106, 120, 116, 100, 103, 52, 121, 53, 114, 51, 122, 97, 114, 118, 97, 114, 121, 48, 99, 53, 120, 119, 55, 107, 118, 56, 102, 51, 116, 53]).toOption = none ∧
+    (segwitDecode [98, 99] [98, 99, 49, 113, 119, 53, 48, 56, 100, 54, 113, 101, 106, 120, 116, 100, 103, 52, 121, 53, 114, 51, 122, 97, 114, 118, 97, 114, 121, 48, 99, 53, 120, 119, 55, 107, 118, 56, 102, 51, 116, 113]).toOption = none := by decide +kernel
 
 /-- Bech32 / Bech32m detect every substitution of up to THREE characters in the data part: same statement as
     `bech32_detects_le2_substitutions` with distance ≤ 3. The additional kernel computation (`orbit3_tab_a/b`,
